@@ -282,7 +282,9 @@ func AnalyzePool(p *load.Program, r *Roles, depth int) *UnitResult {
 			for _, ins := range b.Instrs {
 				if g, ok := ins.(*ssa.Go); ok {
 					goSites++
-					goInstr, goFn = g, fn
+					if goFn != r.FnNewWorkerPool || fn == r.FnNewWorkerPool {
+						goInstr, goFn = g, fn // the constructor's go statement wins as "the" spawn site
+					}
 				}
 			}
 		}
@@ -296,6 +298,82 @@ func AnalyzePool(p *load.Program, r *Roles, depth int) *UnitResult {
 		fmt.Sprintf("the package must start goroutines only in the pool constructor (found %d go statements, last at %s in %s)", goSites, where, funcLabelOrNone(goFn)), nil)
 	if goInstr != nil {
 		workerFn = goInstr.Common().StaticCallee()
+	}
+	// who may change the wait-group count: Submit and what it builds or calls (the wrapper it
+	// queues, helpers). Anything else - the worker, Close, Wait - counting a task a second time
+	// (or not at all) breaks the barrier.
+	if sub := p.Method("WorkerPool", "Submit"); sub != nil {
+		allowed := map[*ssa.Function]bool{}
+		var reach func(f *ssa.Function)
+		reach = func(f *ssa.Function) {
+			if f == nil || allowed[f] || f.Pkg != p.SSA && f.Parent() == nil {
+				return
+			}
+			allowed[f] = true
+			for _, a := range f.AnonFuncs {
+				reach(a)
+			}
+			for _, b := range f.Blocks {
+				for _, ins := range b.Instrs {
+					if ci, ok := ins.(ssa.CallInstruction); ok {
+						if g := ci.Common().StaticCallee(); g != nil && g.Pkg == p.SSA {
+							reach(g)
+						}
+					}
+				}
+			}
+		}
+		reach(sub)
+		isWG := func(f *ssa.Function) bool {
+			n := eng.CalleeName(f)
+			return n == "(*sync.WaitGroup).Done" || n == "(*sync.WaitGroup).Add"
+		}
+		okAcc, whereAcc := true, ""
+		sites := 0
+		for _, fn := range p.AllFunctions() {
+			for _, b := range fn.Blocks {
+				for _, ins := range b.Instrs {
+					var callee *ssa.Function
+					switch x := ins.(type) {
+					case ssa.CallInstruction:
+						callee = x.Common().StaticCallee()
+					case *ssa.MakeClosure: // a method value such as p.wg.Done
+						if f, ok := x.Fn.(*ssa.Function); ok && strings.HasPrefix(f.Synthetic, "bound method wrapper") {
+							if obj, ok := f.Object().(*types.Func); ok {
+								callee = p.Prog.FuncValue(obj)
+							}
+						}
+					}
+					if callee == nil || !isWG(callee) {
+						continue
+					}
+					// only the pool's own wait group (a field of a WorkerPool)
+					var recv ssa.Value
+					switch x := ins.(type) {
+					case ssa.CallInstruction:
+						if len(x.Common().Args) > 0 {
+							recv = x.Common().Args[0]
+						}
+					case *ssa.MakeClosure:
+						if len(x.Bindings) > 0 {
+							recv = x.Bindings[0]
+						}
+					}
+					fa, isFA := recv.(*ssa.FieldAddr)
+					if !isFA {
+						continue
+					}
+					if pt, ok := fa.X.Type().Underlying().(*types.Pointer); !ok || r.WorkerPool == nil || !types.Identical(pt.Elem(), r.WorkerPool) {
+						continue
+					}
+					sites++
+					if !allowed[fn] {
+						okAcc, whereAcc = false, posStr(p.Position(ins.Pos()))+" in "+funcLabel(fn)
+					}
+				}
+			}
+		}
+		col.Check("C12.R3", "package:wait-group-accounting", okAcc && sites > 0, p.Position(sub.Pos()), "the wait-group count is changed outside Submit and the wrapper it queues ("+whereAcc+"): a task counted twice lets Wait return while another task is still running, a task not counted is not waited for", nil)
 	}
 	// the worker is a method of the pool, or a closure that captured the pool
 	var workerRecv *eng.Term
@@ -416,6 +494,8 @@ func AnalyzePool(p *load.Program, r *Roles, depth int) *UnitResult {
 					pending, st = nil, "ran"
 				case ev.Class == "lock" || ev.Class == "rlock" || ev.Class == "wg.Wait" || ev.Class == "time.Sleep":
 					chk(c, "C08.R2", con("blocking"), false, ev, "the worker blocks on "+ev.Class+" besides its channels")
+				case ev.Class == "wg.Done" || ev.Class == "wg.Add":
+					chk(c, "C12.R3", con("accounting"), false, ev, "the worker itself changes the wait-group count ("+ev.Class+"): a task's completion is counted by the wrapper Submit queued, exactly once; a second count lets Wait return while another task is still running")
 				}
 			case "go":
 				chk(c, "C08.R2", con("go"), false, ev, "the worker starts a goroutine per task: more than `workers` tasks can be in flight")
